@@ -52,6 +52,8 @@ THEOREMS = [
     'C02.normSq_vecMul_le', 'C02.cover_true_nearest', 'C02.gram_true_nearest', 'C02.source_true_nearest_gram',
     'C02.cell_condition_needed', 'C02.sheared_condition_needed',
     'C02.Source.gen_sysBoxSet_eq_model', 'C02.Source.gen_box_set_scale_default', 'C02.cleanVects_noop', 'C02.Source.gen_unchecked_reads',
+    'C02.last_clause_end_to_end', 'C02.World.sysBoxSet_scaled',
+    'C02.one_dim_proj', 'C02.one_axis_true_nearest', 'C02.one_axis_condition_needed',
 ]
 PARTIAL = {}
 RULE = ('cells: diagonal, rotated/left-handed mutually orthogonal, LAMMPS-triclinic, general 3x3 (det != 0), strongly '
@@ -81,8 +83,11 @@ ASSUMPTIONS = [
     'elsewhere every component of a candidate carries an absolute rounding error of at most 2^-48 * S '
     '(S = largest input magnitude, no floor); cases whose tie margin (computed exactly by the model) is below the '
     'corresponding bound on squared lengths are exempt from the vector comparison, as are no others',
-    'Box.vects= zeroes entries below 1e-9 of the largest one: generated cells keep every non-zero entry above 1e-6 '
-    'of the largest (exact regime: >= 1/320), so the clean-up never acts',
+    'Box.vects= zeroes entries below 1e-9 of the largest one: no longer assumed away - the C02 driver applies C01\'s model '
+    'of that statement (C01.cleanVects with the exact double 1e-9; tied to Box.py by C01\'s gen_cleanup_eq_model) to every '
+    'cell-defining World operation, histories carry residue entries of 2^-31..2^-45 of the largest one on zero slots, op '
+    '`clean` compares the stored cell for residues on both sides of the threshold (ratios are exact powers of two times a '
+    'grid ratio, never within rounding of 1e-9); ordinary generated cells are clean-stable (cleanVects_noop)',
     'System.box_set(scale=True) recomputes the positions in floating point: the read-back is compared with the '
     'exact value within 2^-44 * (|p-o| |recip| |vects\'| + |o\'| + |p\'|) and the positions are then re-set on the grid',
     'numpy `** 0.5` on a float64 array returns sqrt within 2 ulp',
@@ -1874,6 +1879,13 @@ class Geo:
                 best, arg = q, n
         return best, arg, total
 
+    def gram_ok(self, pbc):
+        """the cell condition of theorem `gram_true_nearest`: coverBound * |recip_i|^2 < 1 on every periodic axis, with
+        coverBound = sum_ij h_i h_j |v_i.v_j|, h = 1/2 on periodic axes and 1 on the others (integers, times 4)."""
+        h2 = [1 if p else 2 for p in pbc]
+        r2x4 = sum(h2[i] * h2[j] * abs(_dot(self.V[i], self.V[j])) for i in range(3) for j in range(3))
+        return all(r2x4 * _dot(self.c[i], self.c[i]) < 4 * self.det * self.det for i in range(3) if pbc[i])
+
     def width2_ok(self, q, pbc):
         """4 q < w^2 with w^2 = min over periodic axes of 1/|recip_i|^2  (q on scale D^2)."""
         return all(4 * q * _dot(self.c[i], self.c[i]) < self.det * self.det for i in range(3) if pbc[i])
@@ -1891,7 +1903,8 @@ def _viol(ctx, key, what, rep):
         ctx.violate(key, what, rep)
 
 
-STAT_KEYS = ('pairs', 'true_nearest_claimed', 'claimed_ortho', 'claimed_width', 'inside_no_claim',
+STAT_KEYS = ('pairs', 'true_nearest_claimed', 'claimed_ortho', 'claimed_width', 'inside_no_claim', 'inside_gram_cell',
+             'inside_gram_cell_not_nearest',
              'inside_no_claim_not_nearest', 'outside_not_nearest', 'enumeration_skipped', 'lattice_points_enumerated',
              'one_to_many', 'many_to_one', 'many_to_many', 'refusals_checked', 'history_queries', 'history_steps',
              'history_aborted', 'pairs_after_inplace_change', 'shift_beyond_one', 'disp_cases',
@@ -1990,6 +2003,12 @@ def clauses(ctx, stats, pre, label, v, o, pbc, pairs, dv, dm, exact, rep, claim=
             stats['inside_no_claim'] += 1
             if e2 > best:
                 stats['inside_no_claim_not_nearest'] += 1
+            # beyond the property text, theorem gram_true_nearest: in a cell meeting the cover-bound condition EVERY in-cell
+            # pair gets its true nearest image (counted, and noted if the compiled code ever disagrees with the theorem)
+            if g.gram_ok(pbc):
+                stats['inside_gram_cell'] += 1
+                if e2 > best + slack:
+                    stats['inside_gram_cell_not_nearest'] += 1
         elif e2 > best:
             stats['outside_not_nearest'] += 1
 
@@ -2661,6 +2680,9 @@ def search(ctx, broken):
         oracle_bigdisp(ctx, spec, stats, sample_rng=rng)
     ctx.extra['big_sizes'] = sizes
     ctx.extra['oracle'] = stats
+    if stats['inside_gram_cell_not_nearest']:
+        ctx.notes.append(f"{stats['inside_gram_cell_not_nearest']} in-cell pairs in cells meeting the cover-bound condition of theorem "
+                         "gram_true_nearest are NOT at their true nearest image: the compiled code contradicts the theorem about the model")
     if stats['inside_no_claim_not_nearest']:
         ctx.notes.append(f"{stats['inside_no_claim_not_nearest']} in-cell pairs in strongly tilted cells where the 27-candidate "
                          'result is not the true nearest image (outside both regimes of the property: no claim, see the '
